@@ -73,6 +73,9 @@ func genC15(t *rapid.T) *Case {
 		n := 3 + uni(t, 5, "ntransports")
 		perm := rapid.Permutation(allTransports).Draw(t, "perm")
 		c.P["transports"] = VStrs(perm[:n]...)
+		if pct(t, 40, "keepalive") {
+			c.P["keepalive"] = VI64(pick(t, []int64{600e9, 1800e9, 3600e9}, "ka"))
+		}
 	}
 	return c
 }
@@ -962,6 +965,12 @@ func execTransparency(c *Case, trace bool) Verdict {
 				cc.Sess[i].Transport = tr
 			} else {
 				cc.Sess[i].Transport = ""
+			}
+			if strings.HasPrefix(tr, "ws-") {
+				// the router side may run the websocket ping/pong heartbeat (its other send loop)
+				if ka, ok := c.P["keepalive"]; ok {
+					cc.Sess[i].KeepAlive, _ = ka.Go().(int64)
+				}
 			}
 		}
 		e := NewEngine(&cc)
